@@ -800,16 +800,8 @@ def judge_pages_doc(doc, pages):
             bad.append(('harness:pagination-prediction', 'page %d holds %s, expected %s' % (idx, p['ids'], exp_ids)))
         exp_groups = [[name, j]] if name else []
         if p['groups'] != exp_groups:
-            # is it the known offset? every index of this section shifted by one after a blank page
-            blank_before_section = any(pages[q]['blank'] for q in range(idx - j - 1, idx - j) if q >= 0)
-            if name and blank_before_section and p['groups'] == [[name, j + 1]]:
-                bad.append(('page-group-blank-page-offset', 'page %d is page %d of its %r group but has group index %d '
-                            '(a blank page took index 0)' % (idx, j + 1, name, j + 1)))
-            elif name and si == 0 and p['groups'] == []:
-                bad.append(('page-group-first-page-missing', 'page %d is page %d of the %r group that starts the document but has '
-                            'no page group' % (idx, j + 1, name)))
-            else:
-                bad.append(('page-groups', 'page %d: groups %s, expected %s' % (idx, p['groups'], exp_groups)))
+            bad.append(('page-groups', 'page %d (page %d of section %d, named %r): page groups %s, expected %s' % (
+                idx, j + 1, si, name, p['groups'], exp_groups)))
         prev_blank = False
     return bad
 
@@ -1396,8 +1388,9 @@ def gen_groups_doc(rng, maxpages):
     rules setting distinguishable margin-left values"""
     ltr = rng.random() < 0.8
     m = rng.choice([2, 3])
-    sections = [(None, '', rng.choice([1, m, m + 1]))]
-    budget = maxpages - 2
+    # the document starts with an unnamed intro, or directly with a named page (whose group starts on page 1)
+    sections = [(None, rng.choice(['', '', 'chap', 'app']), rng.choice([1, m, m + 1, 2 * m + 1]))]
+    budget = maxpages - 3
     for i in range(rng.choice([1, 2, 3, 4])):
         k = rng.choice(['page', 'page', 'page', 'left', 'right'])
         name = rng.choice(['chap', 'chap', 'app', ''])
@@ -1510,7 +1503,7 @@ def t_groups_render(run, rng, T):
                         pages_selected_by_nth_rule=sum(1 for x in meta if x[4] >= 25),
                         negative_step_rules=sum(1 for d in docs for r in d['rules'] if r[0] < 0))
     run.count('groups-render', len(cases), cases, samples=[docs[1]['html'][:600]])
-    run.stream_info('groups-render', rule='unnamed intro + 1-4 sections with named pages (page groups of 1..7 pages, forced page/left/right '
+    run.stream_info('groups-render', rule='intro (unnamed, or a named page starting the document) + 1-4 sections with named pages (page groups of 1..7 pages, forced page/left/right '
                     'breaks, blank pages, same name repeated) x 1-5 rules @page :nth(an+b of name), a in -3..3 (half negative), b in -4..8, '
                     'each setting its own margin-left; every page judged against `exists n>=0, a*n+b = position in group`')
 
